@@ -104,6 +104,7 @@ type Monitor struct {
 	Guards  []string
 	Inv     *Clause
 	Also    []string // "Type.field" of other structs protected by this lock (the lock owner is found among the function's parameters)
+	Closes  []string // channel fields whose closed/open status is protected by this lock (the field itself never changes)
 	Owner   string // function key of the single writer goroutine: its own reads need no lock
 	File    string
 }
@@ -680,6 +681,13 @@ func (cs *Contracts) parseMonitor(path string, line int, rest, pkgName string) {
 		}
 		rest = rest[:i]
 	}
+	var closes []string
+	if i := strings.Index(rest, " closes "); i >= 0 {
+		for _, a := range strings.Split(rest[i+len(" closes "):], ",") {
+			closes = append(closes, strings.TrimSpace(a))
+		}
+		rest = rest[:i]
+	}
 	owner := ""
 	if i := strings.Index(rest, " owner "); i >= 0 {
 		owner = strings.TrimSpace(rest[i+len(" owner "):])
@@ -695,7 +703,7 @@ func (cs *Contracts) parseMonitor(path string, line int, rest, pkgName string) {
 		cs.Errors = append(cs.Errors, fmt.Sprintf("%s:%d: monitor needs Type.field", path, line))
 		return
 	}
-	m := &Monitor{PkgName: pkgName, Type: tf[0], Field: tf[1], File: path, Owner: qualifyFuncName(owner, pkgName), Also: also}
+	m := &Monitor{PkgName: pkgName, Type: tf[0], Field: tf[1], File: path, Owner: qualifyFuncName(owner, pkgName), Also: also, Closes: closes}
 	for _, g := range strings.Split(parts[1], ",") {
 		m.Guards = append(m.Guards, strings.TrimSpace(g))
 	}
